@@ -282,7 +282,6 @@ func (eng *Engine) buildIntercepts() {
 
 	// ---------------- formatting / logging / errors ----------------
 	for _, n := range []string{"fmt.Sprintf", "fmt.Sprint", "fmt.Sprintln", "strings.Join", "encoding/hex.EncodeToString",
-		repoPkg + "/services/logger.ConvertMessagesToMemberMessagesLogs",
 		repoPkg + "/services/leanhelixterm.printShortBlockProofBytes",
 		repoPkg + "/services/logger.nowISO",
 		repoPkg + "/services/leanhelixterm.commitMessagesToCommitteeMemberIdsStr",
